@@ -1,4 +1,5 @@
 import PcfgVerif.Properties.SessionCore
+import PcfgVerif.Generated.PrintSites
 /-!
 # C12 — the guess stream does not depend on thread timing or on standard input
 
@@ -47,5 +48,12 @@ theorem C12_quit_boundary_saved (us : List Unit') (f : Files) (hf : f.omenOpt = 
 /-- the main loop's quit test reads the flag the user's `q` sets, not the liveness of the keyboard thread -/
 theorem C12_quit_source : Generated.Session.quitSrc = .shouldExit ∧
     Generated.Session.keepsQuitOnStatusFailure = true := by decide
+
+/-- whatever the keyboard / status thread does, it does it to stderr: in the modules the guesser runs, the only call site that is
+not bound to stderr is `print_guess`, and nothing is done to `sys.stdout` besides writing and flushing it (no redirection that would
+swap the process-wide stream while the main loop prints) - regenerated from the source on every run -/
+theorem C12_status_output_never_touches_stdout :
+    Generated.PrintSites.guesserNonStderr =
+      [("lib_guesser/pcfg_grammar.py", "PcfgGrammar.print_guess", "stdout")] := by decide
 
 end Pcfg.C12
